@@ -606,3 +606,10 @@ def run_case(case, ctx):
     pat = "all" if all(flags) else "subset"
     ctx.ok(entry, f"{spec['cls']}|{entry}|{settings_key(cfg)}|{pat}|exp{min(n_exp, 1)}", True,
            sample=dict(spec=zoo.class_path(spec, 3), entry=entry, cfg=settings_key(cfg), flags=flags, expanded=n_exp, worst_rel_err=worst))
+
+
+def finish(ctx):
+    # thorough tier, shard 0: the repository's own test-suite as a second workload under this property's monitor
+    from .. import suite
+
+    suite.ingest(ctx, "bilinear", "bilinear_contract")
